@@ -16,6 +16,8 @@ From Abasic Require Import Model.Bytes Model.Num Model.Token Model.Data Model.Le
      Model.State Model.Eval Model.Interp Ref.RefSem Proofs.ExprSem Proofs.RefProofs Proofs.StmtSim
      Proofs.ProgSim Proofs.ProgRun.
 From Abasic Require Proofs.StoreProofs.
+From Abasic Require Gen.ProgramEvents Proofs.ArraysTie.
+From Coq Require String.
 Import ListNotations.
 Local Open Scope nat_scope.
 
@@ -682,6 +684,22 @@ Example C03_example :
   transcript_of (run_ref 50 100 0 p) = ([bs "11" ++ [10%N]; bs "21" ++ [10%N]], Some (RNextWithoutFor, 50%N)).
 Proof. vm_compute. reflexivity. Qed.
 
+(* the order of events in FOR and GOSUB as regenerated from program.rs on this run (Gen/ProgramEvents.v, DESIGN 11.7):
+   FOR forgets the old loop of its variable, THEN tests the loop cap, pushes the loop and assigns the counter; GOSUB tests
+   the frame cap, THEN jumps, then pushes the return address — the order the reference interpreter and the simulation
+   theorem above assume (re-entering a FOR with 32 loops open is no overflow; a 33rd GOSUB fails on the GOSUB's line) *)
+Theorem C03_code_for_gosub_order :
+  firstn 2 Gen.ProgramEvents.program_events =
+  [("start_loop", ["forget-loop"; "cap-test:loop_stack==STACK_LIMIT:StackOverflow"; "push:loop_stack"; "set-variable"]);
+   ("gosub_line_number", ["cap-test:stack==STACK_LIMIT:StackOverflow"; "goto"; "push:stack"])]%string.
+Proof. reflexivity. Qed.
+Theorem C03_model_for_gosub_order : forall sym a b c n name bs s,
+  (forall u s1, remove_loop_with_name sym s = (Ok u, s1) -> length (loops s1) = stack_limit ->
+     start_loop sym a b c s = (Err EStackOverflow None, s1)) /\
+  (length (stack s) = stack_limit -> gosub_line_number n s = (Err EStackOverflow None, s)) /\
+  (length (stack s) = stack_limit -> push_function_call name bs s = (Err EStackOverflow None, s)).
+Proof. exact Proofs.ArraysTie.model_cap_order. Qed.
+
 Print Assumptions C03_ref_for_runs_once.
 Print Assumptions C03_ref_next_forgets_inner.
 Print Assumptions C03_ref_undefined_variable.
@@ -695,3 +713,5 @@ Print Assumptions C03_print_statement_simulates.
 Print Assumptions C03_fragment_simulation.
 Print Assumptions ex_runs.
 Print Assumptions C03_run_simulates.
+Print Assumptions C03_code_for_gosub_order.
+Print Assumptions C03_model_for_gosub_order.
